@@ -72,8 +72,9 @@ def make_variant(scn):
     rows = s2["release"]["rows"]
     if v["kind"] == "drop":
         keep = [r for r, k in zip(rows, v["keep"]) if k]
-        if not any(r["step"] == 0 for r in keep) or not keep:
-            first = [r for r in rows if r["step"] == 0][:1]
+        s_first = min(r["step"] for r in rows)
+        if not any(r["step"] == s_first for r in keep) or not keep:
+            first = [r for r in rows if r["step"] == s_first][:1]
             keep = first + [r for r in keep if r not in first]
         keep.sort(key=lambda r: (r["step"], r["tag"]))
         s2["release"]["rows"] = keep
@@ -191,7 +192,7 @@ def shard(n, seed, known, max_steps):
 
 def run(ctx):
     jobs = [(k, core.subseed(ctx.seed, "p", i), ctx.known_sigs, ctx.n(14, 40))
-            for i, k in enumerate(core.split(ctx.n(480, 16000), 16))]
+            for i, k in enumerate(core.split(ctx.n(800, 16000), 16))]
     stats = core.Stats()
     for s in core.pmap(shard, jobs):
         stats.merge(s)
